@@ -149,6 +149,7 @@ func (c C20) Run(t *tape.Tape, opt core.RunOpt) (res core.Result) {
 			sb.EmptyGroupErr = !sb.TimeoutErr && t.Bool(1, 4)
 		}
 		sb.ByValue = t.Bool(1, 4)
+		sb.Marks = t.Bool(1, 3)
 		w.AddSub(sb)
 		return sb
 	}
